@@ -3,7 +3,9 @@
 // (listener scenarios, mode 2).  Scenarios run in child processes (a panic on a goroutine of
 // the code under test is an observed outcome, not the end of the run).
 // input    = connection scenario (see connsim.Cfg.Sx) | (2 nlisteners ndials drain seed)
-//          | (3 trials nclosers nsenders seed)
+//
+//	| (3 trials nclosers nsenders seed)
+//
 // observed = see coq/C03/Replay.v | coq/C04/Run.v (listener_check, burst_check)
 package main
 
@@ -80,6 +82,9 @@ func gen(a Args, out *Out) {
 		jobs = append(jobs, job{kind, nil})
 		ins = append(ins, in)
 	}
+	// always one listener whose hand-off channel is full and undrained when Close is called
+	jobs = append(jobs, job{"listener-backlog-full", nil})
+	ins = append(ins, Ints(2, int64(rl.Range(1, 2)), 140, 0, int64(rl.Next()>>2)))
 	results := connsim.RunBatch(ins)
 	for i, j := range jobs {
 		out.Case(j.kind, true, ins[i], results[i].Obs)
